@@ -155,6 +155,59 @@ fn event(id: &str, name: &str, a: &Args, input: &[u8], o: &calls::Out) -> Value 
            "fmt_panic": o.fmt_panic.clone().unwrap_or_default(), "foreign": o.stats.foreign, "max_end": o.stats.max_end})
 }
 
+/// value-level mutation of a VALID encoding: most mutations leave the structure alone and move one field to an
+/// arbitrary value (what boundary sets never reach); the rest hit a length field and make the input malformed
+pub fn mutate_values(r: &mut Rng, base: &[u8], other: &[u8]) -> Vec<u8> {
+    let mut v = base.to_vec();
+    if v.is_empty() { return mutate(r, base, other); }
+    match r.below(20) {
+        0..=8 => { let i = r.below(v.len()); v[i] = r.next() as u8; }
+        9..=11 => { let i = r.below(v.len()); v[i] = r.next() as u8; if i + 1 < v.len() { v[i + 1] = r.next() as u8; } }
+        12 => { let i = r.below(v.len()); v[i] = v[i].wrapping_add(1); }
+        13 => { let i = r.below(v.len()); v[i] = v[i].wrapping_sub(1); }
+        14 => { let i = r.below(v.len()); v[i] ^= 1 << r.below(8); }
+        15 => { let n = 1 + r.below(4); for _ in 0..n { let i = r.below(v.len()); v[i] = r.next() as u8; } }
+        16 => { let i = r.below(v.len()); let n = (1 + r.below(8)).min(v.len() - i); for j in 0..n { v[i + j] = r.next() as u8; } }
+        17 => { let n = 1 + r.below(5); for _ in 0..n { v.push(r.next() as u8); } }
+        _ => { return mutate(r, base, other); }
+    }
+    v
+}
+
+/// dfuzz <seed> <n> <corpus.ndjson> <out.ndjson>: n value-level mutations of the corpus' (accepted) inputs, each through the
+/// entry point and arguments of its base; every event is recorded in full for TLC to compare with the specification's answer
+pub fn cmd_dfuzz(args: &[String]) -> i32 {
+    let seed: u64 = args[0].parse().unwrap_or(1);
+    let n: usize = args[1].parse().unwrap_or(100);
+    let mut out = BufWriter::new(std::fs::File::create(&args[3]).expect("create out"));
+    crate::observe::spawn_watchdog(format!("{}.timeout", args[3]), 5);
+    let mut corpus: Vec<(String, Args, Vec<u8>)> = Vec::new();
+    for line in BufReader::new(std::fs::File::open(&args[2]).expect("open corpus")).lines() {
+        if let Ok(c) = serde_json::from_str::<Value>(&line.unwrap()) {
+            let b = crate::bytes_of(&c["input"]);
+            if b.len() > 1200 { continue; }
+            corpus.push((c["fn"].as_str().unwrap_or("").to_string(), Args::from_json(c.get("a")), b));
+        }
+    }
+    if corpus.is_empty() { eprintln!("dfuzz: empty corpus"); return 2; }
+    let mut r = Rng::new(seed ^ 0x5bd1e995);
+    let mut done = 0u64;
+    for k in 0..n {
+        let (name, a, b) = &corpus[r.below(corpus.len())];
+        let other = corpus[r.below(corpus.len())].2.clone();
+        let m = mutate_values(&mut r, b, &other);
+        let id = format!("d:{}#{}", name, k);
+        crate::observe::set_current(&id);
+        if let Some(o) = calls::call(name, a, &m) {
+            writeln!(out, "{}", event(&id, name, a, &m, &o)).unwrap();
+            done += 1;
+        }
+    }
+    out.flush().unwrap();
+    eprintln!("dfuzz: {} events", done);
+    0
+}
+
 fn arg_variants(name: &str) -> Vec<Args> {
     let base = Args { len: 0, ext: false, ct: 22, ver: 0x0303, sub: "dh".into() };
     let mut v = vec![];
